@@ -161,19 +161,23 @@ type ftr struct {
 	named []string // named results (coq local names)
 	nres  int
 
-	opt      bool     // result is option R, first parameter fuel : nat
-	rtPlain  string   // R
-	resKinds []tkind  // kinds of the results
-	resZero  string   // zero value of R
-	env      []envVar // Coq variables in scope, in binding order
-	names    map[types.Object]string
-	used     map[string]bool
-	loops    []*lctx
-	nloops   int
-	ntmp     int
-	pending  []pendCall
-	params   map[types.Object]bool // parameters (incl. receiver) of the function
-	allowMut bool
+	opt       bool     // result is option R, first parameter fuel : nat
+	rtPlain   string   // R
+	resKinds  []tkind  // kinds of the results
+	resZero   string   // zero value of R
+	env       []envVar // Coq variables in scope, in binding order
+	names     map[types.Object]string
+	used      map[string]bool
+	loops     []*lctx
+	nloops    int
+	ntmp      int
+	pending   []pendCall
+	params    map[types.Object]bool // parameters (incl. receiver) of the function
+	mutCallOK bool                  // set while a statement-level call of a mutating method is rendered
+	mut       bool                  // receiver-mutating method: the final receiver is an extra (last) result
+	recvName  string
+	recvObj   types.Object // the receiver variable (nil for plain functions)
+	allowMut  bool
 }
 
 func (t *ftr) bad(n ast.Node, format string, a ...any) {
@@ -343,7 +347,7 @@ func (t *ftr) zeroK(k tkind, ty types.Type, at ast.Node) string {
 		}
 		return "(@nil " + k.elem.coq() + ")"
 	}
-	st := ty.Underlying().(*types.Struct)
+	st := derefStruct(ty).Underlying().(*types.Struct)
 	t.ensureStruct(namedOf(ty), at)
 	var parts []string
 	for i := 0; i < st.NumFields(); i++ {
@@ -641,6 +645,11 @@ func (t *ftr) toZ(e ast.Expr) string {
 	return ""
 }
 
+func (t *ftr) isRecvIdent(e ast.Expr) bool {
+	id, ok := e.(*ast.Ident)
+	return ok && t.recvObj != nil && t.objOf(id) == t.recvObj
+}
+
 func (t *ftr) isNil(e ast.Expr) bool {
 	if tv, ok := t.pi.info.Types[e]; ok && tv.IsNil() {
 		return true
@@ -884,7 +893,8 @@ func (t *ftr) binary(e *ast.BinaryExpr) string {
 				isnil = "(negb " + t.expr(o) + ")"
 			case ok.k == "list":
 				isnil = "(Z.eqb (go_len " + t.expr(o) + ") (0)%Z)"
-			case ok.k == "struct" && isPtr && assumeNonNil:
+			case ok.k == "struct" && isPtr && (assumeNonNil || t.isRecvIdent(o)):
+				// the receiver of a translated method is the value it points to, hence non-nil
 				isnil = "false"
 			default:
 				t.bad(e, "comparison of a %s value with nil", ok.k)
@@ -1229,6 +1239,9 @@ func (t *ftr) call(e *ast.CallExpr) string {
 // iteration budget returns an option: the call is hoisted in front of the statement
 // (takePending / wrapPending) and its place is taken by the bound result.
 func (t *ftr) apply(pi *pkgInfo, dir, fn string, recv ast.Expr, e *ast.CallExpr) string {
+	if recv != nil && isMutator(pi, dir, fn) && !t.mutCallOK {
+		t.bad(e, "call of the receiver-mutating method %s inside an expression (only `x.M(…)` as a statement or as the whole right-hand side of an assignment is translated)", fn)
+	}
 	name := ensureFunc(pi, dir, fn, e)
 	parts := []string{name}
 	calleeOpt := optFuncs[dir+"."+fn]
@@ -1417,6 +1430,25 @@ func (t *ftr) overwrite(dst ast.Expr, src string, rest func() string, at ast.Nod
 	return t.letIn(bn, t.kindOf(target).coq(), "(go_copy_at "+bn+" "+off+" "+src+")", rest)
 }
 
+// retValueOrNone is retValue, "" for the bare return of a method without results.
+func (t *ftr) retValueOrNone(results []ast.Expr, at ast.Node) string {
+	if len(results) == 0 && len(t.resKinds) == 0 {
+		return ""
+	}
+	return t.retValue(results, at)
+}
+
+// withRecv appends the receiver's current value to the results of a receiver-mutating method.
+func (t *ftr) withRecv(v string) string {
+	if !t.mut {
+		return v
+	}
+	if v == "" {
+		return t.recvName
+	}
+	return "(" + v + ", " + t.recvName + ")"
+}
+
 func (t *ftr) retValue(results []ast.Expr, at ast.Node) string {
 	if len(results) == 0 {
 		if len(t.named) == 0 {
@@ -1447,6 +1479,9 @@ func (t *ftr) retValue(results []ast.Expr, at ast.Node) string {
 func (t *ftr) block(list []ast.Stmt, k func() string) string {
 	if len(list) == 0 {
 		if k == nil {
+			if t.mut && len(t.resKinds) == 0 {
+				return t.mkRet(t.recvName) // a method without results ends: hand back the receiver
+			}
 			broken("purefunc %s.%s: control reaches the end of the function without return", t.dir, t.fn)
 		}
 		return k()
@@ -1455,7 +1490,7 @@ func (t *ftr) block(list []ast.Stmt, k func() string) string {
 	restK := func() string { return t.block(list[1:], k) }
 	switch s := s.(type) {
 	case *ast.ReturnStmt:
-		v := t.retValue(s.Results, s)
+		v := t.withRecv(t.retValueOrNone(s.Results, s))
 		return t.wrapPending(t.takePending(), t.mkRet(v))
 	case *ast.BlockStmt:
 		return t.block(append(append([]ast.Stmt{}, s.List...), list[1:]...), k)
@@ -1542,6 +1577,16 @@ func (t *ftr) block(list []ast.Stmt, k func() string) string {
 	case *ast.AssignStmt:
 		if s.Tok == token.ASSIGN || s.Tok == token.DEFINE {
 			if len(s.Lhs) == len(s.Rhs) {
+				if c, ok := s.Rhs[0].(*ast.CallExpr); ok && len(s.Lhs) == 1 {
+					if rx, nres, ok := t.mutatorCall(c); ok && nres == 1 {
+						t.mutCallOK = true
+						call := t.expr(c)
+						t.mutCallOK = false
+						pend := t.takePending()
+						return t.wrapPending(pend, "(let '(tmp_res, tmp_recv) := "+call+" in\n  "+
+							t.assignTo(s.Lhs[0], "tmp_res", func() string { return t.assignTo(rx, "tmp_recv", restK) })+")")
+					}
+				}
 				if len(s.Lhs) == 1 {
 					var v string
 					if id, ok := s.Lhs[0].(*ast.Ident); ok && id.Name == "_" {
@@ -1574,7 +1619,15 @@ func (t *ftr) block(list []ast.Stmt, k func() string) string {
 				return t.wrapPending(pend, strings.Join(tmp, "")+bindAll(0)+strings.Repeat(")", len(tmp)))
 			}
 			if len(s.Rhs) == 1 {
+				var mutRecv ast.Expr
+				if c, ok := s.Rhs[0].(*ast.CallExpr); ok {
+					if rx, _, ok := t.mutatorCall(c); ok {
+						mutRecv = rx
+						t.mutCallOK = true
+					}
+				}
 				rhs := t.expr(s.Rhs[0])
+				t.mutCallOK = false
 				pend := t.takePending()
 				var names []string
 				type b struct{ n, ty string }
@@ -1600,9 +1653,15 @@ func (t *ftr) block(list []ast.Stmt, k func() string) string {
 				var bindAll func(i int) string
 				bindAll = func(i int) string {
 					if i == len(bs) {
+						if mutRecv != nil {
+							return t.assignTo(mutRecv, "tmp_recv", restK)
+						}
 						return restK()
 					}
 					return t.bind(bs[i].n, bs[i].ty, func() string { return bindAll(i + 1) })
+				}
+				if mutRecv != nil {
+					names = append(names, "tmp_recv")
 				}
 				return t.wrapPending(pend, "(let '("+strings.Join(names, ", ")+") := "+rhs+" in\n  "+bindAll(0)+")")
 			}
@@ -1679,6 +1738,17 @@ func (t *ftr) block(list []ast.Stmt, k func() string) string {
 		return t.wrapPending(pend, bindAll(0))
 	case *ast.ExprStmt:
 		if c, ok := s.X.(*ast.CallExpr); ok {
+			if recvX, nres, ok := t.mutatorCall(c); ok {
+				t.mutCallOK = true
+				call := t.expr(c)
+				t.mutCallOK = false
+				pend := t.takePending()
+				if nres == 0 {
+					return t.wrapPending(pend, t.assignTo(recvX, call, restK))
+				}
+				pat := strings.Repeat("_, ", nres) + "tmp_recv"
+				return t.wrapPending(pend, "(let '("+pat+") := "+call+" in\n  "+t.assignTo(recvX, "tmp_recv", restK)+")")
+			}
 			if id, ok := c.Fun.(*ast.Ident); ok && id.Name == "copy" {
 				if _, isB := t.pi.info.Uses[id].(*types.Builtin); isB && len(c.Args) == 2 {
 					src := t.expr(c.Args[1])
@@ -1958,6 +2028,110 @@ func coqFuncName(dir, fn string) string {
 	return "go_" + typeTag(dir, strings.ReplaceAll(fn, ".", "_"))
 }
 
+// mutatorCall recognises `x.M(args)` where M is a receiver-mutating method of a repository type:
+// the receiver expression (an assignable path), the number of M's own results.
+func (t *ftr) mutatorCall(c *ast.CallExpr) (ast.Expr, int, bool) {
+	sel, ok := c.Fun.(*ast.SelectorExpr)
+	if !ok {
+		return nil, 0, false
+	}
+	fn, ok := t.pi.info.Uses[sel.Sel].(*types.Func)
+	if !ok || fn.Pkg() == nil || !(fn.Pkg() == t.pi.pkg || inRepo(fn.Pkg())) {
+		return nil, 0, false
+	}
+	sig, ok := fn.Type().(*types.Signature)
+	if !ok || sig.Recv() == nil {
+		return nil, 0, false
+	}
+	n := namedOf(sig.Recv().Type())
+	if n == nil {
+		return nil, 0, false
+	}
+	d, pi := t.dir, t.pi
+	if fn.Pkg() != t.pi.pkg {
+		d = dirOfPkg(fn.Pkg())
+		pi = loadPkg(d)
+	}
+	if !isMutator(pi, d, n.Obj().Name()+"."+fn.Name()) {
+		return nil, 0, false
+	}
+	if rootIdent(sel.X) == nil {
+		t.bad(c, "receiver of a mutating method is not an assignable path")
+	}
+	return sel.X, sig.Results().Len(), true
+}
+
+// isMutator: a method with a pointer receiver that assigns through it (directly or by calling
+// another mutating method on it).
+var (
+	mutDone = map[string]bool{}
+	mutVal  = map[string]bool{}
+	mutBusy = map[string]bool{}
+)
+
+func isMutator(pi *pkgInfo, dir, fn string) bool {
+	key := dir + "." + fn
+	if mutDone[key] {
+		return mutVal[key]
+	}
+	if mutBusy[key] {
+		return false
+	}
+	mutBusy[key] = true
+	defer delete(mutBusy, key)
+	res := false
+	fd := pi.findFunc(fn)
+	if fd != nil && fd.Body != nil && fd.Recv != nil && len(fd.Recv.List) == 1 && len(fd.Recv.List[0].Names) == 1 {
+		if _, isPtr := pi.info.Types[fd.Recv.List[0].Type].Type.(*types.Pointer); isPtr {
+			recv := pi.info.Defs[fd.Recv.List[0].Names[0]]
+			isRecv := func(e ast.Expr) bool {
+				id := rootIdent(e)
+				return id != nil && pi.info.Uses[id] == recv
+			}
+			ast.Inspect(fd.Body, func(n ast.Node) bool {
+				if res {
+					return false
+				}
+				switch x := n.(type) {
+				case *ast.FuncLit:
+					return false
+				case *ast.AssignStmt:
+					for _, l := range x.Lhs {
+						if _, plain := l.(*ast.Ident); !plain && isRecv(l) {
+							res = true
+						}
+					}
+				case *ast.IncDecStmt:
+					if _, plain := x.X.(*ast.Ident); !plain && isRecv(x.X) {
+						res = true
+					}
+				case *ast.CallExpr:
+					if id, ok := x.Fun.(*ast.Ident); ok && id.Name == "copy" && len(x.Args) == 2 && isRecv(x.Args[0]) {
+						if _, plain := x.Args[0].(*ast.Ident); !plain {
+							res = true
+						}
+					}
+					if sel, ok := x.Fun.(*ast.SelectorExpr); ok && isRecv(sel.X) {
+						if callee, ok := pi.info.Uses[sel.Sel].(*types.Func); ok && callee.Pkg() == pi.pkg {
+							if sig, ok := callee.Type().(*types.Signature); ok && sig.Recv() != nil {
+								if nn := namedOf(sig.Recv().Type()); nn != nil {
+									if isMutator(pi, dir, nn.Obj().Name()+"."+callee.Name()) {
+										res = true
+									}
+								}
+							}
+						}
+					}
+				}
+				return true
+			})
+		}
+	}
+	mutDone[key] = true
+	mutVal[key] = res
+	return res
+}
+
 // optFuncs: functions that need an iteration budget (a non-range loop, directly or in a callee).
 var (
 	optFuncs = map[string]bool{}
@@ -2060,6 +2234,7 @@ func ensureFunc(pi *pkgInfo, dir, fn string, at ast.Node) string {
 	if t.opt {
 		params = append(params, "(fuel : nat)")
 	}
+	var recvType, recvZero string
 	addParam := func(id *ast.Ident, ty types.Type, at ast.Node) {
 		k, ok := kindOfType(ty)
 		if !ok {
@@ -2088,9 +2263,18 @@ func ensureFunc(pi *pkgInfo, dir, fn string, at ast.Node) string {
 		}
 		addParam(id, ty, f)
 		if id != nil && id.Name != "_" {
+			t.recvObj = pi.info.Defs[id]
 			// keep the pointer-ness for the caller-visibility test
 			if _, isPtr := pi.info.Types[f.Type].Type.(*types.Pointer); !isPtr {
 				delete(t.params, pi.info.Defs[id])
+			}
+			if isMutator(pi, dir, fn) {
+				// the method writes through its receiver: the translation hands the final receiver back
+				t.mut = true
+				t.recvName = t.nameOf(pi.info.Defs[id])
+				delete(t.params, pi.info.Defs[id])
+				rk, _ := kindOfType(ty)
+				recvType, recvZero = rk.coq(), t.zero(ty, f)
 			}
 		}
 	}
@@ -2135,6 +2319,9 @@ func ensureFunc(pi *pkgInfo, dir, fn string, at ast.Node) string {
 			}
 		}
 	}
+	if t.mut {
+		rts = append(rts, recvType)
+	}
 	if len(rts) == 0 {
 		broken("purefunc %s: no results", key)
 	}
@@ -2146,7 +2333,11 @@ func ensureFunc(pi *pkgInfo, dir, fn string, at ast.Node) string {
 	{
 		var zs []string
 		i := 0
-		for _, f := range fd.Type.Results.List {
+		var resList []*ast.Field
+		if fd.Type.Results != nil {
+			resList = fd.Type.Results.List
+		}
+		for _, f := range resList {
 			cnt := len(f.Names)
 			if cnt == 0 {
 				cnt = 1
@@ -2155,6 +2346,9 @@ func ensureFunc(pi *pkgInfo, dir, fn string, at ast.Node) string {
 				zs = append(zs, t.zero(pi.info.Types[f.Type].Type, f))
 				i++
 			}
+		}
+		if t.mut {
+			zs = append(zs, recvZero)
 		}
 		t.resZero = zs[0]
 		if len(zs) > 1 {
